@@ -28,7 +28,8 @@ REQUIRED_COUNTERS = {'c10_evaluations_repeated': 60,
                      'c10_fresh_vs_long_lived_compared': 60,
                      'c10_comment_lists_checked': 100}
 SHARD_TIMEOUT = {'quick': 900, 'thorough': 5400}
-MONITORS = [monitors.c10_no_adjacent_duplicates]
+MONITORS = [monitors.c10_no_adjacent_duplicates,
+            monitors.c10_no_phantom_hold]
 LAYOUTS = ['d1', 'd2', 's1d2', 'd1M1d2', 'h1d2']
 
 
@@ -58,7 +59,9 @@ def op_blocked(g):
 
 
 OPENERS = [None, op_reset_twice, op_help_then_status, op_blocked,
-           gen.OPENERS['two_prs_same_base'], gen.OPENERS['three_queued']]
+           gen.OPENERS['two_prs_same_base'], gen.OPENERS['three_queued'],
+           gen.OPENERS['partial_merge'], gen.OPENERS['partial_merge'],
+           gen.OPENERS['dependency_then_other']]
 
 
 def plan(tier, seed):
@@ -86,6 +89,7 @@ def run_shard(spec, acc):
                 acc.seen('job_outcomes', '%s:%s' % (rec['kind'],
                                                      rec['status']))
                 monitors.c10_no_adjacent_duplicates(world, rec, acc, {})
+                monitors.c10_no_phantom_hold(world, rec, acc, {})
             g = gen.Gen(world, rng, gen.profile(
                 p_green=0.8, p_forward=0.5,
                 w={'comment': 6, 'delete_comment': 2, 'admin': 0.5}), on_job)
